@@ -117,7 +117,7 @@ func runTraceSnapshot(x *verifkit.Ctx, c tsnCase) (snaps int, withMem, afterMerg
 
 func TestVerifC19Trace(t *testing.T) {
 	verifkit.Run(t, verifkit.Spec[tsnCase]{
-		Property: "C19", Unit: "trace_snapshot",
+		Property: "C19", Unit: "trace_snapshot", CrashReplay: true,
 		Rule: "a trace shard (core parts plus the ordered secondary index): 2..6 write batches over 6 traces with generated flushes, merges of arbitrary subsets of file " +
 			"parts and TakeFileSnapshot requests in between - in particular while memory parts are pending and right after merges; oracle: the copy holds one " +
 			"manifest and no part directory outside it, opens with the real start-up code and serves exactly the batches flushed before the request, spans and " +
